@@ -213,7 +213,13 @@ class GateEvent:
         return self._real.wait(timeout)
 
 
-def replay_schedule(util_mod, cls, tracked, lock_attrs, calls, schedule, timeout=5.0, event_attrs=()):
+def replay_schedule(util_mod, cls, tracked, lock_attrs, calls, schedule, timeout=5.0, event_attrs=(), fault_codes=None,
+                    guarded=False):
+    """fault_codes: {method name: code object} of the progress-class methods -- schedule steps
+    {"op":"fault","raises":True,"site":[method, bytecode offset]} make that call expression raise (injected, with
+    sys.monitoring CALL events, exactly when the call is about to be made: equivalent to the callee -- print,
+    str.format, file.write/flush, ... -- raising).  guarded: the caller is `enter(); try: update()... finally: exit()`
+    (the shape of `with progress(...) as p:`), otherwise the plain call sequence."""
     """calls: [(method, args)] of the caller thread; schedule: list of {"thread","op",...}.
     -> dict(leaked=[timer idx...], threads=[...], desync=None|str, bytes_after_exit, rearmed, log)"""
     sched = Scheduler(timeout)
@@ -242,6 +248,7 @@ def replay_schedule(util_mod, cls, tracked, lock_attrs, calls, schedule, timeout
     old_stdout = sys.stdout
     sys.stdout = out
     excs = []
+    mon_tool = None
     old_hook = threading.excepthook
     threading.excepthook = lambda a: excs.append("%s: %s" % (a.exc_type.__name__, a.exc_value))
     try:
@@ -256,19 +263,62 @@ def replay_schedule(util_mod, cls, tracked, lock_attrs, calls, schedule, timeout
         def caller():
             sched.thread_started("main")
             try:
-                for m, args in calls:
-                    getattr(obj, m)(*args)
+                if guarded:
+                    getattr(obj, calls[0][0])(*calls[0][1])
+                    try:
+                        for m, args in calls[1:-1]:
+                            getattr(obj, m)(*args)
+                    finally:
+                        getattr(obj, calls[-1][0])(*calls[-1][1])
+                else:
+                    for m, args in calls:
+                        getattr(obj, m)(*args)
             except ReplayDesync:
                 pass
             except Exception as e:  # noqa
                 res["caller_exception"] = "%s: %s" % (type(e).__name__, e)
             finally:
                 sched.thread_finished("main")
+        # which execution (per thread) of which call expression raises
+        raising, seen_cnt = set(), {}
+        for st in schedule:
+            if st["op"] == "fault" and st.get("site"):
+                key = (st["thread"], st["site"][0], int(st["site"][1]))
+                seen_cnt[key] = seen_cnt.get(key, 0) + 1
+                if st.get("raises"):
+                    raising.add(key + (seen_cnt[key],))
+        if fault_codes and raising:
+            by_code = {c: n for n, c in fault_codes.items()}
+            run_cnt = {}
+
+            def on_call(code, offset, callable_, arg0):
+                nm = by_code.get(code)
+                me = sched.me()
+                if nm is None or me is None or sched.free_run:
+                    return
+                key = (me, nm, offset)
+                run_cnt[key] = run_cnt.get(key, 0) + 1
+                if key + (run_cnt[key],) in raising:
+                    sched.gate("fault", nm)
+                    raise FaultInjected("%s: call at bytecode offset %d of %s raises" % (me, offset, nm))
+            mon = sys.monitoring
+            for t in (4, 3, 5, 2, 1, 0):
+                if mon.get_tool(t) is None:
+                    mon_tool = t
+                    break
+            mon.use_tool_id(mon_tool, "vf-thx-h1f")
+            mon.register_callback(mon_tool, mon.events.CALL, on_call)
+            for c in by_code:
+                mon.set_local_events(mon_tool, c, mon.events.CALL)
         th = threading.Thread(target=caller, name="vf-caller", daemon=True)
         th.start()
         try:
             for st in schedule:
                 if st["op"] == "nd":
+                    continue
+                if st["op"] == "fault":
+                    if st.get("raises"):
+                        sched.step(st["thread"], "fault")
                     continue
                 if st["op"] == "fire":
                     sched.fire(int(st["thread"][5:]))
@@ -317,6 +367,11 @@ def replay_schedule(util_mod, cls, tracked, lock_attrs, calls, schedule, timeout
                 _RealTimer.cancel(t)
             for t in live:
                 _RealTimer.join(t, 0.2)
+        if mon_tool is not None:
+            for c in fault_codes.values():
+                sys.monitoring.set_local_events(mon_tool, c, 0)
+            sys.monitoring.register_callback(mon_tool, sys.monitoring.events.CALL, None)
+            sys.monitoring.free_tool_id(mon_tool)
         for mod, name, orig in patched:
             setattr(mod, name, orig)
         sys.stdout = old_stdout
